@@ -54,6 +54,7 @@ def theorems(prop):
     return [
         "Iauthd.Properties.C19",
         "Iauthd.Properties.C19_stock_comparators",
+        "Iauthd.Properties.C19_map_laws",
         "Iauthd.Set.splay_inorder",
         "Iauthd.Set.splay_root_spec",
         "Iauthd.Set.inv_step",
@@ -61,6 +62,9 @@ def theorems(prop):
         "Iauthd.Set.C19_refinement",
         "Iauthd.Set.dispose_step",
         "Iauthd.Set.C19_dispose_once",
+        "Iauthd.Set.reach_find_iff",
+        "Iauthd.Set.reach_insert_find",
+        "Iauthd.Set.reach_remove_find",
         "Iauthd.Set.cmpInt3_laws",
         "Iauthd.Set.cmpCharp_laws",
         "Iauthd.Set.cmpPtr_laws",
@@ -78,7 +82,7 @@ def lean_targets(prop):
 
 
 def lean_modules(prop):
-    return ["Iauthd.Set.Model", "Iauthd.Set.Spec", "Iauthd.Set.Proofs", "Iauthd.Set.Dispose", "Iauthd.Set.Comparators", "Iauthd.Properties.C19"]
+    return ["Iauthd.Set.Model", "Iauthd.Set.Spec", "Iauthd.Set.Proofs", "Iauthd.Set.Dispose", "Iauthd.Set.Comparators", "Iauthd.Set.MapLaws", "Iauthd.Properties.C19"]
 
 
 def checker_cmd(prop):
